@@ -4,6 +4,7 @@ import GwModel.Gen.Facts
 import GwModel.Exec.ErrOrder
 import GwModel.ExecSeq
 import GwModel.HttpErrors
+import GwModel.Middleware
 /-! # C07 — Failures are reported faithfully and stay contained
 
 Machine level (any forest, any failure pattern, any schedule): at return the collector has recorded
@@ -18,7 +19,7 @@ theorem facts_safe : FactsSafe Gen.exec := by decide
 
 /-- http.go `formatErrorsWithCode` has the shape `HttpErr.format` models: entries that are not graphql errors are
     rewritten as graphql errors carrying their message (regenerated on every run) -/
-theorem http_facts_safe : Gen.httpErrorsKeepMessages = true := by decide
+theorem http_facts_safe : Gen.httpErrorsKeepMessages = true ∧ Gen.mw.errorAborts = true := by decide
 
 def cfg : Cfg := cfgOfFacts Gen.exec
 theorem cfg_safe : cfg.Safe := cfg_safe_of_facts facts_safe
@@ -78,6 +79,20 @@ theorem reported_errors_order_independent {α : Type} {a b : List (ErrList.E α)
 theorem every_failure_reaches_the_client_with_its_message (err : HttpErr.Err) (code : String) :
     (HttpErr.format err code).map (·.message) = (HttpErr.entries err code).map (fun e => some e.message) :=
   HttpErr.format_messages err code
+
+/-- **no error the execution reported is hidden by a response middleware** (`Mw.execute`, the model of the tail of
+    `Gateway.Execute` after the repair of D65; fact `mw.errorAborts` is the exact loop body): whatever the middlewares
+    do — the built-in scrubber tripping over a null at a join included — every error of the execution is among the
+    errors returned -/
+theorem a_failing_middleware_does_not_hide_the_executions_errors {D E : Type} (scrub : Mw.RMw D E)
+    (user : List (Mw.RMw D E)) (result : D) (ee : List E) : ∀ x ∈ ee, x ∈ (Mw.execute scrub user result ee).2.2 :=
+  Mw.execute_keeps_exec_errors scrub user result ee
+
+/-- what the code did before that repair: the scrubber's error alone (kernel-checked witness: the service's error
+    "db down" is gone) -/
+theorem before_the_repair_the_scrubbers_error_replaced_the_services :
+    (Mw.executeOld (D := Nat) (E := String) ⟨0, fun _ => .error "Received null for required field"⟩ [] 5 ["db down"]).2.2 =
+      ["Received null for required field"] := by decide
 
 /-- what the code did before the repair of D64 (kept as a witness of what the theorem above excludes) -/
 theorem before_the_repair_a_transport_failure_lost_its_message :
